@@ -91,7 +91,7 @@ def garbage_direction_last(act, x_scale):
     return (not np.isfinite(dn)) or dn > 1e6 * max(1.0, x_scale)
 
 
-def compare_restart(problem, cfg, blob, x_ref, maxiter, pseed, stats, n_pert=3, ref_act=None):
+def compare_restart(problem, cfg, blob, x_ref, maxiter, pseed, stats, n_pert=3, ref_act=None, rel_step_tol=0.0):
     """DESIGN 7.2: is the restart as close to the reference as rounding allows?
 
     Returns (verdict, info): verdict in {"ok", "vacuous", "fail", "raised"}.
@@ -132,9 +132,11 @@ def compare_restart(problem, cfg, blob, x_ref, maxiter, pseed, stats, n_pert=3, 
     for i in range(len(xs)):
         for j in range(i + 1, len(xs)):
             spread = max(spread, float(np.max(np.abs(xs[i] - xs[j]))))
-    tol = 1e3 * spread + floor
-    info = {"distance": d, "spread": spread, "tolerance": tol}
     step = float(np.max(np.abs(x_ref - pickle.loads(blob).x))) if x.size else 0.0
+    # rel_step_tol > 0 (comparisons more than one iteration ahead): a one-ulp difference of the
+    # intermediate iterate is amplified by the conditioning of the problem before it reaches x
+    tol = 1e3 * spread + floor + rel_step_tol * step
+    info = {"distance": d, "spread": spread, "tolerance": tol}
     info["reference_step"] = step
     if d <= tol:
         if spread > 1e-3 * max(step, floor):
